@@ -89,7 +89,7 @@ struct Case {
 };
 
 // buffer description inside a case: <name>_cls, <name>_seed, <name>_len, and <name>_bytes when short
-enum { BUF_RANDOM = 0, BUF_ZERO, BUF_FF, BUF_CONST, BUF_UNIT, BUF_COUNTER, BUF_HIGH, BUF_EXPLICIT, BUF_PERIODIC, BUF_NCLS };
+enum { BUF_RANDOM = 0, BUF_ZERO, BUF_FF, BUF_CONST, BUF_UNIT, BUF_COUNTER, BUF_HIGH, BUF_EXPLICIT, BUF_PERIODIC, BUF_SPARSE, BUF_NCLS };
 inline std::vector<uint8_t> expand_buffer(const Case &c, const std::string &name) {
     int cls = (int)c.get(name + "_cls"); uint64_t seed = (uint64_t)c.get(name + "_seed"); size_t len = (size_t)c.get(name + "_len");
     std::vector<uint8_t> b(len, 0);
@@ -102,6 +102,10 @@ inline std::vector<uint8_t> expand_buffer(const Case &c, const std::string &name
     case BUF_CONST: std::fill(b.begin(), b.end(), (uint8_t)(seed | 1)); break;
     case BUF_UNIT: if (len) b[splitmix64(s) % len] = (uint8_t)(1 + splitmix64(s) % 255); break;
     case BUF_COUNTER: for (size_t i = 0; i < len; i++) b[i] = (uint8_t)(i + seed); break;
+    case BUF_SPARSE: {       // a sparse object: zeros with a few short non-zero runs (holes before, between and after them)
+        int runs = 1 + (int)(splitmix64(s) % 5);
+        for (int q = 0; q < runs && len; q++) { size_t at = splitmix64(s) % len, n = 1 + splitmix64(s) % 12; for (size_t i = at; i < at + n && i < len; i++) b[i] = (uint8_t)(1 + splitmix64(s) % 255); }
+        break; }
     case BUF_PERIODIC: { static const int per[] = {2, 3, 4, 4, 8, 16, 5, 32}; int p = per[seed % 8]; uint8_t pat[32]; for (int i = 0; i < p; i++) pat[i] = (uint8_t)splitmix64(s); if (p >= 4 && pat[0] == pat[2] && pat[1] == pat[3]) pat[2] ^= 0x5a; for (size_t i = 0; i < len; i++) b[i] = pat[i % p]; break; }
     case BUF_HIGH: for (size_t i = 0; i < len; i += 8) { uint64_t r = splitmix64(s) | 0x8080808080808080ull; for (size_t j = 0; j < 8 && i + j < len; j++) b[i + j] = (uint8_t)(r >> (8 * j)); } break;
     }
@@ -345,7 +349,7 @@ inline int weighted(std::initializer_list<int> w) {
 inline uint64_t pick_seed() { return (uint64_t)pick(0, (1ll << 40)); }
 // generate a buffer description into the case
 inline void gen_buffer(Case &c, const std::string &name, size_t len, int forced_cls = -1) {
-    int cls = forced_cls >= 0 ? forced_cls : weighted({8, 1, 1, 1, 2, 1, 2, 0, 2});      // index = BUF_* class (EXPLICIT is chosen below)
+    int cls = forced_cls >= 0 ? forced_cls : weighted({8, 1, 1, 1, 2, 1, 2, 0, 2, 3});      // index = BUF_* class (EXPLICIT is chosen below)
     if (len > 0 && len <= 48 && forced_cls < 0 && coin(2, 3)) {
         // element-wise so that it shrinks
         std::vector<int64_t> b(len);
